@@ -35,7 +35,7 @@ Definition step_obs (modelled : bool) (u c : sobs) : sx :=
 
 Definition hist_obs {C} (P : policy C) (c0 : C) (modelled : bool) (p : pipeline) (h : list step) : sx :=
   SL (map (fun uc => step_obs modelled (fst uc) (snd uc))
-          (combine (exec_hist body pick P false false p c0 h) (exec_hist body pick P false true p c0 h))).
+          (combine (exec_hist_checked body pick P false false p c0 h) (exec_hist_checked body pick P false true p c0 h))).
 
 Definition run (c : case) : sx :=
   match c with
